@@ -14,6 +14,16 @@ def replay_file(path):
     eng = rec.get("engine", "A")
     if eng == "A":
         hubutil.check_interpreters([rec["interp"]])
+        if rec.get("mode") == "reload_stage":
+            res = hubutil.run_worker(rec["interp"], rec["hashseed"], {"engine": "A", "prop": prop, "tree": tree, "tier": rec.get("tier", "quick"), "mode": "reload_stage", "items": rec["items"]}, timeout=300)
+            got = [x["fingerprint"] for x in res["violations"]]
+            print("replay of %s (reload stage under another hash seed): recorded fingerprint %s" % (path, rec["fingerprint"]))
+            print("violations observed: %s" % (got or "none"))
+            if rec["fingerprint"] in got:
+                print("VIOLATION property=%s replay=%s" % (prop, path))
+                return 1
+            print("recorded violation did NOT reproduce on the current tree")
+            return 0
         if rec.get("mode") == "batch":
             job = dict(rec["job"], tree=tree)
             res = hubutil.run_worker(rec["interp"], rec["hashseed"], job, timeout=900)
